@@ -55,7 +55,7 @@ impl MinCase {
 
 /// `sched` may carry `/dup<d>`: records i and i+d (and so on) share an id
 pub fn dup_of(sched: &str) -> usize {
-    sched.split("/dup").nth(1).and_then(|x| x.parse().ok()).unwrap_or(0)
+    sched.split("/dup").nth(1).and_then(|x| x.split('/').next()).and_then(|x| x.parse().ok()).unwrap_or(0)
 }
 
 pub struct MinOut {
@@ -66,14 +66,16 @@ pub struct MinOut {
 
 pub fn run_min(c: &MinCase, m2s: bool, work: &str, uid: &str) -> MinOut {
     crate::p_file::ID_MOD.store(dup_of(&c.sched), std::sync::atomic::Ordering::SeqCst);
+    crate::p_file::ID_WIDE.store(c.sched.contains("/wide"), std::sync::atomic::Ordering::SeqCst);
     let inp = write_input(work, uid, &c.recs, &crate::p_file::container_for(&c.req(), &c.recs));
     crate::p_file::ID_MOD.store(0, std::sync::atomic::Ordering::SeqCst);
+    crate::p_file::ID_WIDE.store(false, std::sync::atomic::Ordering::SeqCst);
     let outp = format!("{}/min_{}.txt", work, uid);
     let _ = std::fs::remove_file(&outp);
     if stale_case(&c.req()) {
         plant_file(&outp, c.recs.iter().map(|r| r.len() * 4 + 40).sum());
     }
-    install_sched(c.sched.split("/dup").next().unwrap_or("free"));
+    install_sched(c.sched.split('/').next().unwrap_or("free"));
     let result = catch(std::panic::AssertUnwindSafe(|| {
         if m2s {
             misc::minimisers::bin_sequences(c.w, c.m, &inp, &outp, c.threads)
@@ -83,7 +85,7 @@ pub fn run_min(c: &MinCase, m2s: bool, work: &str, uid: &str) -> MinOut {
     }));
     let ctl = verif::uninstall();
     let text = String::from_utf8_lossy(&std::fs::read(&outp).unwrap_or_default()).to_string();
-    let _ = std::fs::remove_file(&inp);
+    crate::p_file::remove_input(&inp);
     let _ = std::fs::remove_file(&outp);
     MinOut { result, text, ctl }
 }
@@ -132,8 +134,12 @@ pub fn eval_min(c: &MinCase, model: &Model, work: &str, uid: &str, traces: &mut 
     let recs_field = if c.recs.is_empty() {
         "-".to_string()
     } else {
-        let d = dup_of(&c.sched);
-        c.recs.iter().enumerate().map(|(i, r)| format!("{}:{}", hex(format!("r{}", if d > 0 { i % d } else { i }).as_bytes()), hex(r))).collect::<Vec<_>>().join(",")
+        crate::p_file::ID_MOD.store(dup_of(&c.sched), std::sync::atomic::Ordering::SeqCst);
+        crate::p_file::ID_WIDE.store(c.sched.contains("/wide"), std::sync::atomic::Ordering::SeqCst);
+        let f = c.recs.iter().enumerate().map(|(i, r)| format!("{}:{}", hex(crate::p_file::rec_id(i).as_bytes()), hex(r))).collect::<Vec<_>>().join(",");
+        crate::p_file::ID_MOD.store(0, std::sync::atomic::Ordering::SeqCst);
+        crate::p_file::ID_WIDE.store(false, std::sync::atomic::Ordering::SeqCst);
+        f
     };
     let ans = model.query(&[format!("s2m {} {} {}", c.w, c.m, recs_field)]);
     let f: Vec<&str> = ans[0].split('|').collect();
@@ -399,7 +405,8 @@ pub fn run_c10(tier: &str, seed: u64, model: &Model, corpus_lines: Vec<String>, 
     {
         let n = if tier == "thorough" { 40_000 } else { 12_000 };
         let recs: Vec<Vec<u8>> = (0..n).map(|_| { let l = rng.range(60, 140) as usize; gen::clean_seq(&mut rng, l, gen::Flavor::Uniform) }).collect();
-        let c = MinCase { recs, w: 15, m: 7, threads: 4, sched: "free".into() };
+        // ids of 23 ASCII bytes followed by a two-byte character
+        let c = MinCase { recs, w: 15, m: 7, threads: 4, sched: "free/wide".into() };
         run_one(&c, "large", &mut rep, &mut traces, &mut branching);
     }
     // whole-record mode (w = 0) on contig-sized records: the window holds more than 2^16 m-mers
